@@ -291,6 +291,22 @@ def onUpdate (topo : List Nat) (s : St) (old : Option Obj) (o : Obj) : St :=
 def onDelete (topo : List Nat) (s : St) (o : Obj) : St :=
   if !o.assigned then s else release topo s o.uid
 
+/-- `podEventHandler.updatePod` on a resourceManager whose topologyOptionsManager has no valid CPU topology for
+    the node yet (`valid = false`: the NodeResourceTopology has not been delivered): `resourceManager.Update`
+    returns before touching the ledger (`!topologyOptions.CPUTopology.IsValid()`), so the record branch is a
+    no-op; `Release` does not look at the topology options, so the release branches are unchanged. -/
+def onUpdateT (valid : Bool) (topo : List Nat) (s : St) (old : Option Obj) (o : Obj) : St :=
+  if valid then onUpdate topo s old o
+  else if !o.assigned then
+    match old with
+    | some od => if od.assigned then release topo s od.uid else s
+    | none => s
+  else if o.term then release topo s o.uid
+  else s
+
+/-- the same object before the bind: `spec.nodeName = ""`, annotations (PreBind wrote them first) unchanged. -/
+def Obj.unbound (o : Obj) : Obj := { o with assigned := false }
+
 /-! ## 4. canonical observations -/
 
 def insertSorted (x : Nat) : List Nat → List Nat
